@@ -2148,7 +2148,7 @@ f_objects (void)
   object_t *ob, **tmp;
   array_t *ret;
   funptr_t *f = 0;
-  int display_hidden = 0, t_sz, i, j, num_arg = st_num_arg;
+  int display_hidden = 0, t_sz, i, j, n, num_arg = st_num_arg;
   svalue_t *v;
 
   if (!num_arg)
@@ -2164,7 +2164,9 @@ f_objects (void)
 
   push_malloced_string ((char *) tmp);
 
-  for (i = 0, ob = obj_list; ob; ob = ob->next_all)
+  /* First collect the objects: the filter below runs LPC code that can destruct the object being
+   * looked at (its next_all then leads into obj_list_destruct) or any other object of the list. */
+  for (n = 0, ob = obj_list; ob; ob = ob->next_all)
     {
       if (ob->flags & O_HIDDEN)
         {
@@ -2173,6 +2175,27 @@ f_objects (void)
           if (!(display_hidden & 2))
             continue;
         }
+      tmp[n] = ob;
+      if (++n == t_sz)
+        {
+          if (!
+              (tmp =
+               (object_t **) extend_string ((char *) tmp,
+                                            (t_sz +=
+                                             1000) * sizeof (object_t *))))
+            fatal ("Out of memory!\n");
+          else
+            sp->u.string = (char *) tmp;
+        }
+    }
+
+  /* Then ask the filter about every collected object that is still alive (destructed objects are not
+   * freed before the backend loop runs remove_destructed_objects(), the pointers stay valid). */
+  for (i = 0, j = 0; j < n; j++)
+    {
+      ob = tmp[j];
+      if (ob->flags & O_DESTRUCTED)
+        continue;
       if (f)
         {
           push_object (ob);
@@ -2204,19 +2227,14 @@ f_objects (void)
             continue;
         }
 
-      tmp[i] = ob;
-      if (++i == t_sz)
-        {
-          if (!
-              (tmp =
-               (object_t **) extend_string ((char *) tmp,
-                                            (t_sz +=
-                                             1000) * sizeof (object_t *))))
-            fatal ("Out of memory!\n");
-          else
-            sp->u.string = (char *) tmp;
-        }
+      tmp[i++] = ob;
     }
+
+  /* objects accepted earlier can have been destructed by a later call of the filter */
+  for (n = i, i = 0, j = 0; j < n; j++)
+    if (!(tmp[j]->flags & O_DESTRUCTED))
+      tmp[i++] = tmp[j];
+
   if (i > CONFIG_INT (__MAX_ARRAY_SIZE__))
     i = CONFIG_INT (__MAX_ARRAY_SIZE__);
   ret = allocate_empty_array (i);
